@@ -180,6 +180,26 @@ def str_(x):
     return _real["str"](x)
 
 
+def _native_with_marker(x):
+    t = _real["type"](x)
+    return (t is tuple or t is list) and any(_real["type"](e) is GenToken for e in x)
+
+
+def getitem_(x, k):
+    """x[k] of the module text"""
+    if _native_with_marker(x):
+        raise Unsupported("positional access to a sequence with an abstract segment")
+    return x[k]
+
+
+def in_(a, x):
+    """`a in x` of the module text; `not in` is rewritten to `not (a in x)`.  The result goes through bool() exactly as the
+    operator's would (a symbolic truth value branches there)."""
+    if _native_with_marker(x):
+        raise Unsupported("membership in a sequence with an abstract segment")
+    return a in x
+
+
 def repr_(x):
     if isi(x, (Seq, GenToken, Cases)) or _container_with_symbolic_parts(x):
         raise Unsupported("repr() of a container with symbolic parts")
@@ -622,7 +642,7 @@ def make_builtins(extra=None):
         "min": min_, "max": max_, "zip": zip_, "enumerate": enumerate_, "isinstance": isinstance_,
         "issubclass": issubclass_, "type": type_, "hash": hash_, "next": next_, "iter": iter_, "abs": abs_,
         "range": range_, "list": list_, "tuple": tuple_, "set": set_, "dict": dict_, "int": int_,
-        "repr": repr_, "__pyvc_str__": str_,
+        "repr": repr_, "__pyvc_str__": str_, "__pyvc_getitem__": getitem_, "__pyvc_in__": in_,
     })
     # helpers referenced by the comprehension desugaring (pyvc.desugar); private names, so a module that shadows
     # `map`/`list` keeps its own meaning
